@@ -259,7 +259,7 @@ def eval_case(spec, flavour, case, world=None):
                 kw["add_self"] = add_self
             got = obj.find_all(**kw)
             if not _same(got, exp):
-                cl = CL_LIMIT if k is not None and len(full) > k else CL_MATCH
+                cl = CL_LIMIT if _limit_fault(got, full, k) else CL_MATCH
                 out.append((cl, func, f"returned {_names(got, idx)}, required {_names(exp, idx)}"))
             nontrivial = 0 < len(full) < len(seq) or (k is not None and len(full) > k)
             frame(func)
@@ -308,7 +308,7 @@ def eval_case(spec, flavour, case, world=None):
                 kw["max_results"] = k
             got = obj.find_all(data_id=key, **kw) if via == "data_id" else obj.find_all(key, **kw)
             if not _same(got, exp):
-                cl = CL_BR_LIMIT if k is not None and len(full) > k else CL_BR
+                cl = CL_BR_LIMIT if _limit_fault(got, full, k) else CL_BR
                 out.append((cl, func, f"find_all({'data_id=' if via == 'data_id' else ''}{key!r}{'' if k is None else f', max_results={k}'}) returned {_names(got, idx)}, required {_names(exp, idx)}"))
             nontrivial = len(full) >= 1
             frame(func)
@@ -401,6 +401,14 @@ def eval_case(spec, flavour, case, world=None):
     return out, bool(nontrivial)
 
 
+def _limit_fault(got, full, k):
+    """A wrong answer counts against the limit clause when the limit is exceeded, or when the limit
+    bites and the answer has k elements (the wrong k); otherwise against the unlimited clause."""
+    if k is None or not isinstance(got, list):
+        return False
+    return len(got) > k or (len(full) > k and len(got) == k)
+
+
 def _ident(p, gone):
     return tuple((id(c), _ident(c, gone)) for c in _kids(p) if id(c) not in gone)
 
@@ -426,9 +434,12 @@ PATTERNS["xid"] = [["re", p] for p in ("a", ".*", "id7")]
 ALPHABET = {"str": ("a", "b", "ab"), "case": ("a", "A", ""), "int": ("a", "b", "c"), "keyed": ("a", "b"), "eqpair": ("a", "b", "x"), "xid": ("a", "b")}
 
 
-def enum_cases(spec, flavour, *, max_subset_nodes=4):
+def enum_cases(spec, flavour, *, max_subset_nodes=4, thin=False):
+    """All cases of one tree.  thin (quick tier, trees of >= 4 nodes): limits {None, 1, 2, n+1} only."""
     n = len(spec)
     ks = [None] + list(range(1, n + 2))
+    if thin and n >= 4:
+        ks = [None, 1, 2, n + 1]
     mspecs = list(PATTERNS[flavour])
     if n <= max_subset_nodes:
         for r in range(n + 1):
@@ -500,7 +511,7 @@ def _keep_smallest(best, v, size, per_key=4):
         lst.sort(key=lambda t: t[0])
 
 
-def _run_chunk(chunk, prop, timeout):
+def _run_chunk(chunk, prop, timeout, thin=False):
     res = Result(prop)
     best: dict = {}
     old = signal.signal(signal.SIGALRM, _alarm)
@@ -510,7 +521,7 @@ def _run_chunk(chunk, prop, timeout):
             signal.setitimer(signal.ITIMER_REAL, timeout)
             try:
                 world = make_world(spec, flavour)
-                for case in enum_cases(spec, flavour):
+                for case in enum_cases(spec, flavour, thin=thin):
                     try:
                         diffs, nontrivial = eval_case(spec, flavour, case, world)
                         if diffs:
@@ -560,14 +571,14 @@ def run(prop: str, tier: str, only=None) -> Result:
         rnd.append((fl, gen.random_spec(rng, rng.randint(5 if quick else 6, 7), alphabet=ALPHABET[fl])))
     total = Result(prop)
     allitems = sorted(items + rnd, key=lambda it: len(it[1]), reverse=True)
-    total.merge(parallel(_run_chunk, allitems, prop, 300.0, prop=prop, chunks_per_proc=16))
+    total.merge(parallel(_run_chunk, allitems, prop, 300.0, quick, prop=prop, chunks_per_proc=16))
     total.exhaustive = False  # random part sampled
     m = 3 if quick else 4
     total.bounds["Node._search / Node.find_all / Node.find_first / Tree.find_all / Tree.find_first / Tree.__getitem__ / __contains__ / __delitem__"] = (
         f"every ordered forest with <= {n_str} nodes x labelings over {{a,b,ab}} (clones); <= {m} nodes for the dressings {{a,A,''}} (case / falsy data), "
         f"int data 0..2 with node_ids 1..n, equal-data pairs with data_ids 1,2, explicit data_id 'id7', keyed objects with calc_data_id hook; "
         f"+ {n_rand} seeded random trees with {5 if quick else 6}..7 nodes (VERIF_SEED={seed()}); every start node and the tree; "
-        "match = 15 patterns + 7 (pattern, flags) forms + every node subset as callback (<= 4 nodes; label subsets above), add_self on/off, max_results in {None, 1..n+1}; "
+        "match = 15 patterns + 7 (pattern, flags) forms + every node subset as callback (<= 4 nodes; label subsets above), add_self on/off, max_results in {None, 1..n+1}" + (" ({None,1,2,n+1} for trees of >= 4 nodes)" if quick else "") + "; "
         "data / data_id / node_id keys: every label's data (present or absent), every node's data_id and node_id, literal ints 0..n+2, 7 and strings, a Node key; "
         "tree[key], del tree[key], key in tree for all of them"
     )
